@@ -2,6 +2,7 @@ package main
 
 import (
 	"bytes"
+	"encoding/hex"
 	"strings"
 	"sync/atomic"
 	"unsafe"
@@ -477,6 +478,18 @@ func plainPool(e *emitter) [][]byte {
 		{0x7e, 0x00, 0x68, 0x01, 0x00, 0x05, 0x2e, 0x05, 0x00, 0xd6, 0x24, 0x12, 0x05},
 	} {
 		add(b)
+	}
+	// conformant downlink messages written out octet by octet and added WITHOUT asking the codec first (the filter above would
+	// hide a decoder that loses part of one of them): REGISTRATION ACCEPT ending in a half-octet IE (NSSAI inclusion mode A-,
+	// Network slicing indication 9-, MICO indication B-), CONFIGURATION UPDATE COMMAND with Configuration update indication D-,
+	// Network slicing indication with either flag alone, MICO indication. The receiver recovers exactly these octets.
+	for _, h := range []string{"7e00420101a1", "7e0042010191", "7e00420101b1", "7e0042010191a1", "7e00420101a0", "7e005491", "7e005492", "7e005493",
+		"7e0054d1", "7e0054d192", "7e0054b1"} {
+		b, err := hex.DecodeString(h)
+		if err != nil {
+			panic(err)
+		}
+		pool = append(pool, b)
 	}
 	if len(pool) < 20 {
 		panic("plainPool: the codec reproduces too few of the sample messages")
